@@ -237,6 +237,9 @@ class Run:
         self.log.append({"ev": _ev, "path": path, "t": self.loop.time(), "it": self.loop.iteration, **kw})
 
     def inst(self, key, sv):
+        if sv.get("share") is not None:
+            # ONE instance (e.g. a module-level constant) supplied by several blocks: its label does not depend on the block
+            key = ("shared", sv["type"], sv["v"], sv["share"])
         if key not in self.instances:
             s = make_state(sv)
             self.instances[key] = s
